@@ -88,6 +88,8 @@ func setConsts(vm *otto.Otto, consts map[string]float64) error {
 // ---- family cases ------------------------------------------------------------------
 
 type caseT struct {
+	Mode  string `json:"mode"`
+	Name  []int  `json:"name"`
 	Cont  string `json:"cont"`
 	K     string `json:"k"`
 	Where string `json:"where"`
@@ -274,6 +276,59 @@ func runCase(vm *otto.Otto, l *line) (any, string, error) {
 		}
 		obs["js"] = jsv
 		return obs, stmt, nil
+	case "tagfield":
+		// a struct with every form of json tag, accessed by a property name: read, write + read back, parameter from an object literal
+		t := &bridge.Tagged{Plain: 1, Named: 2, Omit: 3, Str: 4, KeepName: 5, Dash: 6, DashComma: 7}
+		if err := vm.Set("t", t); err != nil {
+			return nil, src, err
+		}
+		name := jsx.StrLit(c.Name)
+		keys := func() any {
+			var ks any
+			r, e := vm.Run("JSON.stringify(Object.keys(t).sort(CMPU).map(UNITS))")
+			if e != nil || json.Unmarshal([]byte(r.String()), &ks) != nil {
+				return M{"unobservable": fmt.Sprint(e)}
+			}
+			return ks
+		}
+		ret := func() any {
+			var rv any
+			r, e := vm.Run("JSON.stringify(OBS(RET))")
+			if e != nil || json.Unmarshal([]byte(r.String()), &rv) != nil {
+				return M{"unobservable": fmt.Sprint(e)}
+			}
+			return rv
+		}
+		switch c.Mode {
+		case "read", "write":
+			stmt := "RET = t[" + name + "]"
+			if c.Mode == "write" {
+				stmt = "t[" + name + "] = 9; RET = t[" + name + "]"
+			}
+			thr := runStmt(vm, wrap(stmt))
+			obs := M{"thr": thr, "go": bridge.TaggedForm(*t), "keys": keys()}
+			if thr == "" {
+				obs["ret"] = ret()
+			} else {
+				obs["ret"] = M{"t": "undef"}
+			}
+			return obs, stmt, nil
+		case "param":
+			var got *bridge.Tagged
+			if err := vm.Set("P", func(x bridge.Tagged) { got = &x }); err != nil {
+				return nil, src, err
+			}
+			stmt := "var o__ = {}; o__[" + name + "] = 9; P(o__)"
+			thr := runStmt(vm, wrap(stmt))
+			if thr != "" {
+				return M{"thr": thr}, stmt, nil
+			}
+			if got == nil {
+				return M{"thr": "", "called": 0}, stmt, nil
+			}
+			return M{"thr": "", "go": bridge.TaggedForm(*got)}, stmt, nil
+		}
+		return nil, src, fmt.Errorf("unknown mode %q", c.Mode)
 	case "pfield":
 		// x.<sel> handed to a Go function taking a pointer: identity and visibility of the callee's write
 		d, err := bridge.BuildDoc(c.D)
